@@ -35,10 +35,13 @@ const ms = int64(time.Millisecond)
 const sec = int64(time.Second)
 const day = 24 * int64(time.Hour)
 
+// the delay under which the model sees a cron task without any occurrence: far beyond every script
+const neverNs = 36500 * day
+
 // ---------------------------------------------------------------- case format
 
 type Spec struct {
-	K     string `json:"k"` // after | repeat | cron | croni | day
+	K     string `json:"k"` // after | repeat | cron | croni | day | never (a cron expression without any occurrence)
 	A     int64  `json:"a,omitempty"`
 	I     int64  `json:"i,omitempty"`
 	N     int64  `json:"n,omitempty"`
@@ -75,9 +78,9 @@ type Res struct {
 	Note    string `json:"note,omitempty"`
 }
 type Reg struct { // where instance id came from
-	Op     int   `json:"op"`               // index of the registering op, or of the parent's registering op
-	React  bool  `json:"react,omitempty"`  // registered by a callback
-	At     int64 `json:"at"`               // ns after start
+	Op     int   `json:"op"`              // index of the registering op, or of the parent's registering op
+	React  bool  `json:"react,omitempty"` // registered by a callback
+	At     int64 `json:"at"`              // ns after start
 	Name   int   `json:"name"`
 	Sp     *Spec `json:"sp"`
 	Parent int   `json:"parent,omitempty"` // react: instance id of the parent
@@ -115,16 +118,16 @@ type rawEv struct {
 	crash bool
 }
 type rawReg struct {
-	tmp      int
-	op       int
-	react    bool
-	at       int64 // ns after start (react: ms of the parent's firing * 1e6)
-	name     int
-	sp       *Spec
-	re       []React
-	parent   int // tmp id
-	count    int64
-	inReg    bool
+	tmp    int
+	op     int
+	react  bool
+	at     int64 // ns after start (react: ms of the parent's firing * 1e6)
+	name   int
+	sp     *Spec
+	re     []React
+	parent int // tmp id
+	count  int64
+	inReg  bool
 }
 
 type runner struct {
@@ -171,6 +174,12 @@ func (r *runner) register(name int, sp *Spec, re []React, op int, react bool, at
 		}
 	case "croni":
 		if err := r.s.RegisterImmediateCronTask(tname(name), cronExpr(sp.C), cb); err != nil {
+			return true, "cron: " + err.Error()
+		}
+	case "never":
+		// a cron expression without any occurrence (30 February): the wheel hands out no timer for it. For everything
+		// observable it is a one-shot task that is due far beyond the horizon of the script (how the model sees it)
+		if err := r.s.RegisterCronTask(tname(name), "0 0 0 30 2 * *", cb); err != nil {
 			return true, "cron: " + err.Error()
 		}
 	case "day":
@@ -643,6 +652,8 @@ func coqSpec(sp *Spec) string {
 		return vh.App("SCron", zz(sp.C), "false")
 	case "croni":
 		return vh.App("SCron", zz(sp.C), "true")
+	case "never":
+		return vh.App("SAfter", zz(neverNs))
 	case "day":
 		return vh.App("SDay", zz(sp.Since), zz(sp.Off), zz(sp.H), zz(sp.M), zz(sp.S))
 	}
@@ -761,6 +772,9 @@ func genSpec(rng *vh.RNG, sc scale, inCallback bool) *Spec {
 			return d / ms * ms
 		}
 		return d
+	}
+	if sc.cron && rng.Chance(1, 25) {
+		return &Spec{K: "never"}
 	}
 	switch x := rng.Intn(20); {
 	case x < 6:
